@@ -4,7 +4,7 @@
    label sequences of the LTS. *)
 From Coq Require Import List ZArith Bool.
 Import ListNotations.
-From Goat Require Import Model.Proxy Model.ProxyHeld Proofs.ProxyProofs Proofs.ProxyOrder Proofs.ProxyWire Proofs.ProxyMeasure Proofs.ProxyHeldProofs.
+From Goat Require Import Model.Proxy Model.ProxyHeld Proofs.ProxyProofs Proofs.ProxyOrder Proofs.ProxyWire Proofs.ProxyMeasure Proofs.ProxyIsWire Proofs.ProxyHeldProofs.
 Open Scope Z_scope.
 
 (* source: whatever is forwarded has a header and the source under which its sender is attached; and nothing
@@ -21,11 +21,27 @@ Theorem C17_no_crash : forall cf ls s, lrun cf init ls = Some s -> crashed s = f
 Proof. exact C17_no_crash_l. Qed.
 Print Assumptions C17_no_crash.
 
-(* ... which was false of the code before the D-17d repair: its forwarding function crashes on an envelope with an
-   empty, non-nil return route *)
-Theorem C17_no_crash_refuted_before_D17d : exists cf n e, forward_gen false cf n e = FCrash.
+(* C17_no_crash is about a model that CAN crash: Model/Proxy.v's route decision [forward_gen ghdr gnext] carries the two
+   operations of forwardRpc that panic on peer-controlled data, each behind the guard the code gives it (proxy.go
+   l.136: "rpc.Header == nil ||" before rpc.Header.Source; l.161: "len(rpc.Header.ProxyNext) > 0" before the index
+   and the re-slice of l.162-163); the rule r_fw_cmd sets [crashed] and ends the forwarding loop on FCrash. The code is
+   [forward_gen true true]. Without either guard a peer can crash the proxy with one envelope: *)
+Theorem C17_no_crash_refuted_before_D17d : exists cf n e, forward_gen true false cf n e = FCrash.
 Proof. exact forward_prefix_crash. Qed.
 Print Assumptions C17_no_crash_refuted_before_D17d.
+
+Theorem C17_no_crash_refuted_without_header_guard : exists cf n e, forward_gen false true cf n e = FCrash.
+Proof. exact forward_nohdr_crash. Qed.
+Print Assumptions C17_no_crash_refuted_without_header_guard.
+
+(* ... and with both the route decision is total on every input (the content of C17_no_crash, together with: no other
+   rule sets [crashed]). The remaining panic-capable operations of proxy.go are not functions of peer data: the table
+   p.clients is read / written only under p.mutex (l.80-82; l.95 inside l.168-173; l.116-122) - in the model, inside
+   atomic steps; the source-level lock discipline is C15's; proxy.go closes no channel; c.conn is assigned (l.235)
+   before the loops that use it (l.189, l.211) are started. *)
+Theorem C17_forward_total : forall cf n e, forward_gen true true cf n e <> FCrash.
+Proof. exact forward_guarded_total. Qed.
+Print Assumptions C17_forward_total.
 
 (* isolation: while the forwarding loop runs, whatever a goroutine of record j offers (an envelope, an error) is
    taken by ONE step of the forwarding loop that is enabled whatever the state of all other records *)
